@@ -647,14 +647,19 @@ def thread_known_discriminants(prog, d, max_new=400):
                 nxt, via_call = t["target"], True
             else:
                 continue
-            # follow empty goto blocks
+            # follow goto blocks: empty ones, and ones whose statements do not touch the tested local (they are copied
+            # into the threaded block)
             hops = 0
-            while nxt not in sw and hops < 6 and not blocks[nxt]["cleanup"] and not blocks[nxt]["stmts"] and blocks[nxt]["term"]["k"] == "goto":
+            mid = []
+            while nxt not in sw and hops < 6 and not blocks[nxt]["cleanup"] and blocks[nxt]["term"]["k"] == "goto" and len(blocks[nxt]["stmts"]) <= 4:
+                mid.extend(blocks[nxt]["stmts"])
                 nxt = blocks[nxt]["term"]["target"]
                 hops += 1
             if nxt not in sw:
                 continue
             x = sw[nxt]
+            if any(st_["place"]["local"] == x or (st_["rv"]["k"] == "ref" and st_["rv"].get("mut") and st_["rv"]["place"]["local"] == x) for st_ in mid):
+                continue
             vidx = None
             if via_call:
                 if t["dest"]["local"] != x:
@@ -682,7 +687,7 @@ def thread_known_discriminants(prog, d, max_new=400):
                     tgt = tb
             if tgt is None:
                 tgt = sb["term"]["otherwise"]
-            nb = {"cleanup": False, "stmts": copy.deepcopy(sb["stmts"]), "term": {"k": "goto", "target": tgt}, "threaded": "discr"}
+            nb = {"cleanup": False, "stmts": copy.deepcopy(mid) + copy.deepcopy(sb["stmts"]), "term": {"k": "goto", "target": tgt}, "threaded": "discr"}
             blocks.append(nb)
             if via_call:
                 t["target"] = len(blocks) - 1
